@@ -12,7 +12,7 @@ use crate::parse::*;
 pub type Truth<'a> = &'a dyn Fn(&str) -> bool;
 
 fn bools(preds: &[TokenStream], truth: Truth) -> Vec<bool> {
-    preds.iter().map(|p| truth(&p.to_string())).collect()
+    preds.iter().map(|p| truth(&crate::refm::pred_symbol(&p.to_string()))).collect()
 }
 
 /// ecs_world!: __expand_ecs_world (collect predicates) + the cfg chain (supplies one bool per predicate, in
